@@ -98,7 +98,7 @@ def c12_sweep(agg, tier):
 PROFILES["C12"] = Profile(
     "C12", c12_run_seed, runner.replay_case, quick_runs=3200, quick_budget=150, thorough_budget=900,
     rule=("one evaluation = one seeded run: a pool of 30-60 live objects built from recipes (aliased on purpose), a "
-          "program of 5-40 catalogue operations issued by 1-4 clients, executed fault-free in SEQ (golden; O1 after "
+          "program of 5-40 (thorough: up to 80) catalogue operations issued by 1-4 (thorough: up to 6) clients, executed fault-free in SEQ (golden; O1 after "
           "every step, O2 on re-asks and in a final re-ask pass) and then once more under one of "
           "{seq_env, seq_async, preempt, preempt_all} with O1 at every scheduler entry, O3 against the golden "
           "answers and O4 after the last fault. distinct = distinct history signature (sequence of (client, op, "
@@ -266,6 +266,7 @@ def do_check(prof: Profile, args) -> int:
     budget = args.budget if args.budget is not None else (prof.quick_budget if tier == "quick" else prof.thorough_budget)
     print(f"geosim check property={prof.prop} tier={tier} VERIF_SEED={args.seed} runs={n_runs} budget={budget}s "
           f"workers={args.workers}", flush=True)
+    os.environ["GEOSIM_TIER"] = tier   # inherited by the forked workers and the determinism subprocesses
     runner.worker_init()
     pre_info = {}
     pre_violations = []
